@@ -31,6 +31,9 @@ EXPLANATION = (
     "_AUTO_BLOCKED_PAR_RANGE, is the ICP of the ivp scenario and of the defaults, and the blocked range reaches _auto_param_indices.  "
     "R5 (added; DESIGN listed it as undecided) _auto_param_indices is evaluated by a bounded interpreter of its own AST for 0..64 "
     "parameters: slots are strictly increasing, start at 1 and avoid auto-07p's reserved PAR(11..14) and every literal ICP slot >= 11.  "
+    "R7 (added) every container the exporter reads and the backend fills through `self.<attr>` (declaration table, op-call table, "
+    "code lines, imports, helper functions) is bound per instance in an __init__ of FortranBackend's MRO; the shared lint "
+    "class_level_mutable_state is armed for the whole backend class family.  "
     "Extracted private emitters are followed: a method that receives the slot list (and the sequence it was computed for) or the "
     "state list is analysed like _generate_auto_files itself; the reordering may be a returned expression of a helper; slots/indices "
     "of unknown provenance end in ANALYSIS-ERROR, not in a violation.  "
@@ -1850,6 +1853,97 @@ def r_str_membership(ctx, rid):
     membership_in_string(ctx, rid)
 
 
+def r7_export_state_is_per_instance(ctx, rid):
+    """Every container of a backend instance that the auto-07p export reads slots, declaration order, STPNT values or code from must
+    be per-instance state.  The exporter's functions (their inlined views) are scanned for `self.<attr>` reads; those attributes
+    that some method of the backend class family fills THROUGH the attribute (`self.a[k] = v`, `self.a.append(..)`, ...) are the
+    export's state containers.  Each must be bound to a fresh object in an `__init__` of the class's MRO (a class-level default
+    that `__init__` re-binds is fine).  A container that exists only as a class-level mutable object is one object for all
+    backend instances of the process: what an earlier export registered (first registration wins) leaks into the next one.
+    In addition the shared lint `class_level_mutable_state` is armed for the whole backend family (BaseBackend, its subclasses
+    and the mixins in their MROs)."""
+    from ._pitfall_lints import class_level_mutable_state, MUTATORS, _is_mutable_display
+    base = ctx.repo.get_class("pyrates/backend/base/base_backend.py", "BaseBackend")
+    fb = _cls(ctx)
+    family = []
+    for c in [base] + list(ctx.repo.subclasses(base, strict=True)):
+        for k in [c] + [b for b in c.mro[1:] if hasattr(b, "methods")]:
+            if k not in family:
+                family.append(k)
+    hits = class_level_mutable_state(ctx, family)
+    hit_attr = {}
+    for c, st, why in hits:
+        nm = st.targets[0].id if isinstance(st, ast.Assign) else st.target.id
+        hit_attr[(c.name, nm)] = (c, st, why)
+    # ---- the export's state containers
+    readers = [_m(ctx, "_generate_auto_files"), _m(ctx, "generate_func_head")]
+    names = ["register_vars", "add_var_update", "generate_func", "generate_func_tail", "add_code_line", "generate"]
+    names += [nm for nm in fb.methods if nm not in _VIEWED]       # every method the Fortran exporter defines itself
+    for nm in dict.fromkeys(names):
+        g = ctx.repo.lookup_method(fb, nm)
+        if g is not None and g.self_name:
+            readers.append(g)
+    read = {}
+    for f in readers:
+        sn = f.self_name
+        for n in ast.walk(f.node):
+            if isinstance(n, ast.Attribute) and isinstance(n.value, ast.Name) and n.value.id == sn and isinstance(n.ctx, ast.Load):
+                read.setdefault(n.attr, f)
+    mro = [k for k in fb.mro if hasattr(k, "methods")]
+    written, bound_init, bound_other = {}, {}, {}
+    for k in mro:
+        for m in k.methods.values():
+            sn = m.self_name
+            if not sn:
+                continue
+            for n in ast.walk(m.node):
+                if isinstance(n, ast.Attribute) and isinstance(n.value, ast.Name) and n.value.id == sn:
+                    p_ = parent(n)
+                    if isinstance(n.ctx, ast.Store):
+                        (bound_init if m.name == "__init__" else bound_other).setdefault(n.attr, (m, n))
+                    elif isinstance(p_, ast.Subscript) and p_.value is n and isinstance(p_.ctx, (ast.Store, ast.Del)):
+                        written.setdefault(n.attr, (m, n))
+                    elif isinstance(p_, ast.Attribute) and p_.attr in MUTATORS and isinstance(parent(p_), ast.Call) and parent(p_).func is p_:
+                        written.setdefault(n.attr, (m, n))
+    containers = sorted(a for a in read if a in written)
+    ctx.require(len(containers) >= 2, f"{rid}: expected the exporter to read instance containers that the backend fills "
+                                      f"(declaration table, code lines, ...), found {containers}")
+    for a in containers:
+        label = f"per-instance container self.{a}"
+        m_w, n_w = written[a]
+        cls_level = None
+        for k in mro:
+            v = k.attrs.get(a) if hasattr(k, "attrs") else None
+            if v is not None:
+                cls_level = (k, v)
+                break
+        facts = {"read_in": read[a].qualname, "filled_in": m_w.qualname,
+                 "bound_in_init": bound_init[a][0].qualname if a in bound_init else None,
+                 "class_level": f"{cls_level[0].name}.{a} = {ast.unparse(cls_level[1])[:40]}" if cls_level else None}
+        hit = next((h for (cn, nm), h in hit_attr.items() if nm == a and any(k.name == cn for k in mro)), None)
+        if a in bound_init:
+            ctx.ok(rid, bound_init[a][0], _stmt(bound_init[a][1]), f"`self.{a}` (read by the exporter in {read[a].qualname}, filled in "
+                                                                   f"{m_w.qualname}) is bound per instance in {bound_init[a][0].qualname}", facts,
+                   label=label)
+        elif hit is not None or (cls_level is not None and _is_mutable_display(cls_level[1]) and a not in bound_other):
+            c, st, why = hit if hit is not None else (cls_level[0], _stmt(cls_level[1]), f"`{cls_level[0].name}.{a}` is a class-level "
+                                                      f"mutable object that no method re-binds")
+            ctx.violation(rid, m_w, _stmt(n_w), f"the exporter reads `self.{a}` (in {read[a].qualname}) but {why}: names, slots, values or "
+                                                f"code registered by an earlier export of the same process are still in it (first "
+                                                f"registration wins), so the later model is exported with the earlier model's entries",
+                          facts, label=label)
+        else:
+            raise AnalysisError(f"{rid}: cannot see where `self.{a}` (read by the exporter, filled in {m_w.qualname}) becomes per-instance "
+                                f"state: not bound in an __init__ of {fb.name}'s MRO (unrecognised form)")
+    # ---- the armed lint: any other class-level container used as per-instance state in the backend family
+    for (cn, nm), (c, st, why) in sorted(hit_attr.items()):
+        if nm in containers and any(k.name == cn for k in mro):
+            continue
+        ctx.violation(rid, None, st, f"{why}: backend instances of one process share it", label=f"class-level container {cn}.{nm}",
+                      construct=f"{c.module.rel if hasattr(c.module, 'rel') else ''}::{cn}::class-level container {nm}",
+                      loc=f"{getattr(c.module, 'rel', '?')}:{st.lineno}")
+
+
 RULES = [
     # today: 20 (9 uses of the slot list in _generate_auto_files + 1 in the Jacobian block, 5 slot-bearing templates, 3 hand-over
     # tables, 2 chain links); the floor leaves room for two uses to turn into something else, the categories are required separately
@@ -1859,4 +1953,5 @@ RULES = [
     ("C18-R4", r4_time_slot, 4),
     ("C18-R5", r5_slot_arithmetic, 2),
     ("C18-R6", r_str_membership, 1),
+    ("C18-R7", r7_export_state_is_per_instance, 5),      # declaration table, op-call table, code lines, imports, helper functions
 ]
